@@ -35,6 +35,8 @@ def equilibrium(neg, A, B, off=0, pexp=0, Z0=0, C=0, rnodes=None):
         sgn = -1.0 if neg else 1.0
         ps = 10.0 ** pexp
         psi = sgn * (A * (r[:, None] - 4.0) ** 2 + B * (z[None, :] - Z0) ** 2 + C * (r[:, None] - 4.0) * (z[None, :] - Z0)) * ps
+        if neg:
+            psi = np.asfortranarray(psi)          # the flux grid column-major in memory for one sign, row-major for the other
         lcfs = np.array([[1.5, 6.5, 6.5, 1.5], [-2.5, -2.5, 2.5, 2.5]])
         limiter = np.array([[1.5, 6.5, 6.5, 4.5, 4.5, 1.5], [-2.5, -2.5, 0.5, 0.5, 2.5, 2.5]])
         _EQ[key] = EFITEquilibrium(r, z, psi, sgn * off / 2.0 * ps, sgn * (A * 4 + B + 2 * C) * ps, Point2D(4.0, float(Z0)), [], [], np.array([[0.0, 0.25, 0.5, 1.0], [F0, 1.125 * F0, 1.25 * F0, 1.5 * F0]]),
